@@ -28,7 +28,8 @@ RULE = ('span types x span length (4 quick / 6 thorough) x every ordered (start,
         'states = distinct final observations, transitions = solver calls executed, traces = cases compared with the twin loop; '
         'non-trivial = at least one period solved or a rejection checked'
         ' The pairs also under an ambient warnings filter that turns warnings into errors (errors in skip/ignore/replace).'
-        ' Pairs with offsets 1,-1,2 and with a caller keyword for the hooks (call logs compared); a NaN replaced by the offset copy through all three entry points; tuple/frozenset absent labels on NumPy spans too.')
+        ' Pairs with offsets 1,-1,2 and with a caller keyword for the hooks (call logs compared); a NaN replaced by the offset copy through all three entry points; tuple/frozenset absent labels on NumPy spans too.'
+        ' Second-solve scenario with a NaN present on entry and produced again by every pass; the unchecked endogenous variable is seeded by the offset copy. Span types include a stepped range.')
 ASSUMPTIONS = [
     'solve_t itself is judged by C02/C06; here it is the reference for solve()',
     'labels of pandas indexes are compared with ==',
@@ -351,6 +352,7 @@ def run_misc_case(case):
             for k in (1, 2):
                 m = scripted.make_scripted(list(range(4)), {p: list(NORMAL) for p in range(4)}, cls=scripted.Scripted)
                 m.A[k] = float('nan')
+                m.C = [7.0 * (p + 1) for p in range(4)]   # (distinct values per period in the endogenous variable that is not checked)
                 if entry == 'solve':
                     r = refsolve.call_outcome(m.solve, start=k, tol=scripted.TOL, offset=-1)
                 elif entry == 'solve_t':
@@ -359,6 +361,11 @@ def run_misc_case(case):
                     r = refsolve.call_outcome(m.solve_period, k, tol=scripted.TOL, offset=-1)
                 if r[0] not in ('value', 'True') or str(m.status[k]) != '.' or not np.isfinite(m.A[k]):
                     out.append(('rerun-after-fault-with-offset:%s' % entry, 'solved', [r[0], str(m.status[k])], 'a NaN that the offset copy replaces must not stop the run'))
+                else:
+                    # C is endogenous but not a check variable and grows by 100 per pass from the value it is seeded with: the copy covers it too
+                    want_c = 7.0 * k + 100.0 * int(m.iterations[k])
+                    if float(m.C[k]) != want_c:
+                        out.append(('offset-seeds-every-endogenous-variable:%s' % entry, want_c, float(m.C[k]), 'an endogenous variable that is not a check variable was not seeded from the offset period'))
     elif what == 'ambiguous-year':
         # a year on a quarterly PeriodIndex resolves to a slice, not a single position
         for arg in ('start', 'end', 'period', 'valid-start+end', 'start+valid-end', 'start+end'):
@@ -532,6 +539,8 @@ def run_second_solve_case(case):
     second = {p: [('moved', 0), ('moved', 0), ('conv', 0)] for p in range(n)}
     if scen == 'exc-in-pass':
         second[fpos] = [('moved', 0), ('exc', 0)]
+    if scen == 'pre-existing-nan-persisting':
+        second[fpos] = [('nans', 0), ('nans', 0), ('nans', 0)]   # the NaN the period holds on entry is produced again by every pass
     m = scripted.make_scripted(list(range(10, 10 + n)), {p: first + second[p] for p in range(n)}, cls=LScripted)
     m.A = [float(i) for i in range(n)]
     m.B = [-float(i) for i in range(n)]
@@ -549,6 +558,8 @@ def run_second_solve_case(case):
             return []
     elif scen == 'pre-existing-nan':
         m.A[fpos] = np.nan
+    elif scen == 'pre-existing-nan-persisting':
+        m.B[fpos] = np.nan
     before = [(str(m.status[p]), int(m.iterations[p])) for p in range(n)]
     if entry == 'solve':
         r = refsolve.call_outcome(m.solve, **kw)
@@ -564,7 +575,7 @@ def run_second_solve_case(case):
         want = before[p]
         if p in (1, 2, 3) and not stopped:
             o = dict(opts)
-            if scen == 'pre-existing-nan' and p == fpos:
+            if scen in ('pre-existing-nan', 'pre-existing-nan-persisting') and p == fpos:
                 o['pre'] = 'nonfinite'
             if scen == 'pre-hook':
                 o['preHook'] = 'exc'
@@ -585,7 +596,7 @@ def run_second_solve_case(case):
 
 
 def run_second_solve(acc, tier):
-    for scen in ('pre-hook', 'post-hook', 'pre-existing-nan', 'exc-in-pass'):
+    for scen in ('pre-hook', 'post-hook', 'pre-existing-nan', 'exc-in-pass', 'pre-existing-nan-persisting'):
         for fpos in (1, 2, 3):
             for errors in ('raise', 'skip', 'ignore', 'replace'):
                 for failures in ('raise', 'ignore'):
